@@ -72,7 +72,7 @@ pub fn parse_args() -> Args {
         cases: 100,
         out: PathBuf::from("."),
         tier: "quick".into(),
-        shards: 16,
+        shards: 600,
         replay: None,
         extra: BTreeMap::new(),
     };
@@ -269,8 +269,10 @@ impl CaseWriter {
     pub fn finish(&self, out: &Path, prefix: &str) -> std::io::Result<()> {
         std::fs::create_dir_all(out)?;
         let n = self.cases.len();
-        let shards = self.shards.min(n.max(1));
-        let per = (n + shards - 1) / shards.max(1);
+        // `shards` is interpreted as the maximum number of cases per shard file: small files
+        // keep coqc's elaboration time linear and parallelise well.
+        let per = self.shards.max(1);
+        let shards = ((n + per - 1) / per).max(1);
         for s in 0..shards {
             let lo = s * per;
             let hi = ((s + 1) * per).min(n);
@@ -290,7 +292,7 @@ impl CaseWriter {
                 writeln!(f, "Definition result_{} := Eval vm_compute in ({} cases).", k, c).unwrap();
                 writeln!(f, "Print result_{}.", k).unwrap();
             }
-            std::fs::write(out.join(format!("{}_{:03}.v", prefix, s)), f)?;
+            std::fs::write(out.join(format!("{}_{:04}.v", prefix, s)), f)?;
         }
         // Human-readable index for replays.
         let mut h = String::new();
